@@ -202,6 +202,28 @@ example : ((run (List.replicate 15 (.step 0) ++ List.replicate 5 (.step 1)) (mkW
     (run (List.replicate 15 (.step 0) ++ List.replicate 5 (.step 1)) (mkWorld exSpecs)).table "dev" = some 0 := by
   decide
 
+/-- hypotheses of `effects_require_lock`: the 14th step of `do-approve` is a protected one -/
+example : (newEvents (run (List.replicate 13 (.step 0)) (mkWorld exSpecs)) (.step 0)).any
+    (fun ev => ev.step.protected) = true := by decide
+
+/-- hypotheses of `sessions_never_overlap` / `runs_never_interleave`: P0 has run to its end (history,
+log, device, status written), P1 (other spelling, other front-end) then reaches its first protected
+step: an earlier protected event of another pid for the same file is in the trace. -/
+example :
+    let w := run (List.replicate 23 (.step 0) ++ List.replicate 8 (.step 1)) (mkWorld exSpecs)
+    (newEvents w (.step 1)).any (fun ev => ev.step.protected &&
+      w.trace.any (fun ev' => ev'.step.protected && ev'.file == ev.file && ev'.pid != ev.pid)) = true := by
+  decide
+
+/-- hypotheses of `lock_released_on_death` with `bs = []`: P2 stands at its flock step when the
+holder P0 is killed. -/
+example :
+    let w := run (List.replicate 15 (.step 0) ++ List.replicate 5 (.step 2)) (mkWorld exSpecs)
+    (w.procs 0).holds = true ∧ (w.procs 2).st = .running ∧ (w.procs 2).prog.head? = some .flock ∧
+    ((mkWorld exSpecs).procs 2).lockFile = ((mkWorld exSpecs).procs 0).lockFile := by
+  decide
+example (w : World) : noAttempt "dev" w [] := trivial
+
 /-! ## Part B: the regenerated skeleton -/
 
 open NA.Gen.LockSkel in
